@@ -51,7 +51,8 @@ ClientInit ==
   [pc |-> "idle", mid |-> "", wmid |-> "", sid |-> "", sgen |-> -1, claims |-> {},
    cst |-> [p \in Parts |-> "none"], nxt |-> [p \in Parts |-> 0], got |-> [p \in Parts |-> 0],
    mk |-> [p \in Parts |-> -1], dirty |-> {}, ctx |-> FALSE, pcancel |-> FALSE, closed |-> "no",
-   calls |-> 0, hb |-> "off", retries |-> 0, trig |-> 0, h |-> NoHandler, ftry |-> 0, ac |-> 0, j1 |-> FALSE]
+   calls |-> 0, hb |-> "off", retries |-> 0, trig |-> 0, h |-> NoHandler, ftry |-> 0, ac |-> 0, j1 |-> FALSE,
+   nj |-> 0, ns |-> 0]          \* join / sync requests sent in the current Consume call
 
 ResetEvent(c) ==
   [ev |-> "reset", initial |-> c.initial, loglen |-> LogLen, logstart |-> 0, auto |-> c.auto,
@@ -149,7 +150,7 @@ ConsumeCall(c) ==
           /\ script' = AppendSess(c, NoHandler)
      ELSE \E h \in Handlers :
           /\ cl' = [cl EXCEPT ![c].calls = @ + 1, ![c].pc = "join", ![c].retries = RetryMax,
-                              ![c].h = h, ![c].trig = 0]
+                              ![c].h = h, ![c].trig = 0, ![c].nj = 0, ![c].ns = 0]
           /\ Emitting(<<[ev |-> "consume_call", c |-> c]>>)
           /\ script' = AppendSess(c, h)
   /\ UNCHANGED <<cfg, co, fb, tb>>
@@ -162,7 +163,7 @@ JoinScripted(c) ==
   /\ x.pc = "join" /\ fb > 0
   /\ \E k \in ReqKinds :
        /\ co' = IF k = "unknown" THEN Remove(co, x.mid) ELSE co
-       /\ cl' = [cl EXCEPT ![c] = AfterJoinSyncError(x, k)]
+       /\ cl' = [cl EXCEPT ![c] = [AfterJoinSyncError(x, k) EXCEPT !.nj = 1]]
        /\ Emitting(<<JoinReqEv(c), JoinErrEv(c, k)>>)
        /\ script' = RecJ(script, c, k)
   /\ fb' = fb - 1
@@ -183,7 +184,7 @@ JoinGenuine(c) ==
   /\ script' = IF x.j1 \/ (x.mid # "" /\ x.mid \notin co.mem) THEN RecJ(script, c, "ok")
                 ELSE [RecJ(script, c, "ok") EXCEPT ![c].start = StartClass(c)]
   /\ IF x.mid # "" /\ x.mid \notin co.mem
-     THEN /\ cl' = [cl EXCEPT ![c] = AfterJoinSyncError(x, "unknown")]
+     THEN /\ cl' = [cl EXCEPT ![c] = [AfterJoinSyncError(x, "unknown") EXCEPT !.nj = 1]]
           /\ Emitting(<<JoinReqEv(c), JoinErrEv(c, "unknown")>>)
           /\ UNCHANGED co
      ELSE LET fresh == x.mid = ""
@@ -196,7 +197,7 @@ JoinGenuine(c) ==
                                     !.num = [y \in DOMAIN g0.num \cup {m} |-> IF y = m THEN n ELSE g0.num[y]]]
                     ELSE g0 IN
           /\ co' = [g1 EXCEPT !.joined = @ \cup {m}, !.gs = "Preparing"]
-          /\ cl' = [cl EXCEPT ![c].pc = "joinwait", ![c].wmid = m, ![c].j1 = TRUE]
+          /\ cl' = [cl EXCEPT ![c].pc = "joinwait", ![c].wmid = m, ![c].j1 = TRUE, ![c].nj = 1]
           /\ Emitting(<<JoinReqEv(c)>>)
   /\ UNCHANGED <<cfg, fb, tb>>
 
@@ -223,7 +224,7 @@ SyncScripted(c) ==
   /\ x.pc = "sync" /\ fb > 0
   /\ \E k \in ReqKinds :
        /\ co' = IF k = "unknown" THEN Remove(co, x.mid) ELSE co
-       /\ cl' = [cl EXCEPT ![c] = AfterJoinSyncError(x, k)]
+       /\ cl' = [cl EXCEPT ![c] = [AfterJoinSyncError(x, k) EXCEPT !.ns = 1]]
        /\ Emitting(<<SyncReqEv(c), SyncErrEv(c, k)>>)
        /\ script' = RecS(script, c, k)
   /\ fb' = fb - 1
@@ -235,11 +236,11 @@ SyncGenuine(c) ==
   /\ x.pc = "sync"
   /\ script' = RecS(script, c, "ok")
   /\ IF v # "ok"
-     THEN /\ cl' = [cl EXCEPT ![c] = AfterJoinSyncError(x, v)]
+     THEN /\ cl' = [cl EXCEPT ![c] = [AfterJoinSyncError(x, v) EXCEPT !.ns = 1]]
           /\ Emitting(<<SyncReqEv(c), SyncErrEv(c, v)>>)
           /\ UNCHANGED co
      ELSE IF co.gs = "Completing" /\ x.mid # co.leader
-     THEN /\ cl' = [cl EXCEPT ![c].pc = "syncwait"]
+     THEN /\ cl' = [cl EXCEPT ![c].pc = "syncwait", ![c].ns = 1]
           /\ Emitting(<<SyncReqEv(c)>>)
           /\ UNCHANGED co
      ELSE \* the leader's sync completes the barrier (or the group is Stable already)
@@ -404,8 +405,8 @@ HbGenuine(c) ==
 TrigPoint(c) ==
   LET x == cl[c] IN
   CASE x.pc = "idle" /\ x.calls = 0 -> "pre"
-    [] x.pc = "join" /\ script[c].sess[CurIdx(c)].jf = <<>> -> "join"
-    [] x.pc = "sync" /\ script[c].sess[CurIdx(c)].sf = <<>> -> "sync"
+    [] x.pc = "join" /\ x.nj = 0 -> "join"
+    [] x.pc = "sync" /\ x.ns = 0 -> "sync"
     [] x.pc = "setup" -> "sync"        \* armed at sync: the first heartbeat may beat Setup
     [] x.pc = "insetup" -> "setup"
     [] x.pc = "run" /\ (x.claims = {} \/ \E p \in x.claims : x.cst[p] = "run" /\ AtPoint(x, p)) -> "claim"
